@@ -82,6 +82,14 @@ func VerifC13State(v *verifrt.T) {
 		ru = append(ru, c13drawUpd(v, "r", i))
 	}
 	local, remote := c13state(lu), c13state(ru)
+	if v.Bool("foreign-subset") {
+		// a decoded payload may carry a subset of a kind this broker does not keep (DecodeState
+		// copies whatever kinds the bytes name); it cannot change our state
+		f := crdt.NewVolatile()
+		c13clock = 5
+		f.Add("x", nil)
+		remote.subsets[9] = f
+	}
 	ret := local.Merge(remote)
 	v.Reach("state-merged")
 	changed := false
